@@ -3,7 +3,7 @@
    zero value reaches a Panic primitive, and no Verify asks a single query of the signature
    scheme (so the verdict is "not verified" whatever the scheme). *)
 From Model Require Import Bytes Prim Tables Cert KAC Mapping Sig LS RI Crypto Zero Addr.
-From Proofs Require Import CryptoProofs.
+From Proofs Require Import CryptoProofs ZeroAll.
 Open Scope N_scope.
 
 Theorem C20_zero_serialisers_return_normally :
@@ -32,3 +32,30 @@ Theorem C20_zero_router_address_accessors :
   ra_host zero_ra = None /\ ra_port zero_ra = None /\ ra_has_valid_host zero_ra = false /\
   ra_has_valid_port zero_ra = false /\ ra_ip_version zero_ra = [].
 Proof. vm_compute. repeat split; reflexivity. Qed.
+
+(* beyond the zero values: ANY value whose identity part is not a valid KeysAndCert — the zero
+   value, and every partial value a reader hands back together with an error before or while reading
+   the destination / router identity — serialises to an error value (never a panic) and never
+   verifies, whatever its other fields hold, for any signature scheme *)
+Theorem C20_values_without_identity_never_verify : forall verify,
+  (forall l, kac_validate (l2_dest l) = false -> lease_set2_bytes l = Err /\ verdict verify (ls2_verify_queries l) = false) /\
+  (forall l, kac_validate (ml_dest l) = false -> meta_lease_set_bytes l = Err /\ verdict verify (meta_verify_queries l) = false) /\
+  (forall l, kac_validate (ls_dest l) = false -> lease_set_bytes l = Err /\ verdict verify (ls_verify_queries l) = false) /\
+  (forall i, kac_validate (ri_ident i) = false -> router_info_bytes i = Err /\ verdict verify (ri_verify_queries i) = false).
+Proof.
+  intros verify. split; [exact (ls2_without_identity_never_verifies verify)|]. split; [exact (meta_without_identity_never_verifies verify)|].
+  split; [exact (ls_without_identity_never_verifies verify)|exact (ri_without_identity_never_verifies verify)].
+Qed.
+Print Assumptions C20_values_without_identity_never_verify.
+(* a structurally invalid offline signature authorises no key; an EncryptedLeaseSet whose blinded key
+   cannot be constructed for its declared type (the zero value, a value cut off inside the key) asks
+   no query — also when the OFFLINE_KEYS flag is set but the block is missing *)
+Theorem C20_invalid_parts_never_verify : forall verify,
+  (forall o k, off_validate_structure o = false -> offline_query o k = None) /\
+  (forall l, el_offline l = None -> construct_signing_by_type (Z.of_N (el_sigtype l)) (el_key l) = Err ->
+     forall flags, verdict verify (els_verify_queries (mkELS (el_sigtype l) (el_key l) (el_published l) (el_expires l) flags None (el_inner_len l) (el_inner l) (el_sig l))) = false).
+Proof.
+  intros verify. split; [exact invalid_offline_authorises_nothing|exact (els_flag_without_block_never_verifies verify)].
+Qed.
+Example C20_nonvacuous_zero_identity : kac_validate zero_kac = false /\ construct_signing_by_type 0 [] = Err.
+Proof. vm_compute. split; reflexivity. Qed.
